@@ -7,6 +7,7 @@ import (
 	"fmt"
 	"go/ast"
 	"go/constant"
+	"go/parser"
 	"go/token"
 	"go/types"
 	"regexp"
@@ -2672,4 +2673,384 @@ func checkTimePrecision(c *Ctx, rule string) {
 	if n == 0 {
 		c.Unresolved(rule, "print of TimeType.Precision in mysql.FormatType")
 	}
+}
+
+// R19j: the indexes of an excluded column are found through the table, not only through back references.
+const ruleTextExcludeByParts = "excluding a column excludes its indexes on every side: in schema.excludeT the set of indexes withheld together with an excluded column is (also) computed from the table's own index list — a loop over <table>.Indexes that tests the parts for the excluded column — because Column.Indexes is a back reference that not every producer fills (the SQLite inspector does not); relying on it alone removes the index from the desired side only and plans a DROP INDEX"
+
+func checkExcludeByParts(c *Ctx, rule string) {
+	fi := c.Func(rule, pSchema, "", "excludeT")
+	if fi == nil {
+		return
+	}
+	info := fi.Info()
+	// the callback that filters the columns
+	var ok bool
+	found := false
+	ast.Inspect(fi.Decl.Body, func(m ast.Node) bool {
+		call, isCall := m.(*ast.CallExpr)
+		if !isCall || !funcIs(calleeOf(info, call), pSchema, "", "filter") || len(call.Args) != 2 {
+			return true
+		}
+		se, isSel := ast.Unparen(call.Args[0]).(*ast.SelectorExpr)
+		if !isSel || se.Sel.Name != "Columns" {
+			return true
+		}
+		found = true
+		scope := ast.Node(fi.Decl.Body) // the search may live in the callback or after the filter
+		ast.Inspect(scope, func(k ast.Node) bool {
+			rs, isRange := k.(*ast.RangeStmt)
+			if !isRange {
+				return true
+			}
+			rx, isSel := ast.Unparen(rs.X).(*ast.SelectorExpr)
+			if !isSel || rx.Sel.Name != "Indexes" || !typeIs(derefType(info.TypeOf(rx.X)), pSchema, "Table") {
+				return true
+			}
+			// the loop body looks at the parts' columns
+			ast.Inspect(rs.Body, func(q ast.Node) bool {
+				if s, isSel := q.(*ast.SelectorExpr); isSel && s.Sel.Name == "C" && typeIs(derefType(info.TypeOf(s.X)), pSchema, "IndexPart") {
+					ok = true
+				}
+				return true
+			})
+			return true
+		})
+		return true
+	})
+	if !found {
+		c.Unresolved(rule, "excludeT: the filter over the table's columns")
+		return
+	}
+	c.funcs[fi.Name] = true
+	c.Check(rule, "schema.excludeT|indexes of an excluded column found through the table's index parts", fi.Decl.Pos(), ok, "schema.excludeT withholds the indexes of an excluded column only through Column.Indexes: on a schema whose producer does not fill that back reference (SQLite inspection) the index stays, the other side loses it, and the plan drops an index that exists identically on both sides")
+}
+
+// R16j: plan options received are plan options forwarded.
+const ruleTextOptsForwarded = "plan options travel with the plan: every function of sql/internal/sqlx and the dialect packages that receives a variadic `...migrate.PlanOption` parameter and calls a PlanChanges method passes that parameter on (spread) in the call; an apply path that plans without them ignores the requested schema qualifier and skips the scope check, so the executed statements name the objects' own schema and a change set spanning two schemas is applied"
+
+func checkOptsForwarded(c *Ctx, rule string) {
+	n := 0
+	for _, pp := range []string{pSqlx, pMysql, pPostgres, pSqlite} {
+		c.AllFuncs(false, func(fi *FuncInfo) {
+			if fi.Pkg.PkgPath != pp {
+				return
+			}
+			info := fi.Info()
+			var opt types.Object
+			ps := fi.Decl.Type.Params.List
+			if len(ps) == 0 {
+				return
+			}
+			last := ps[len(ps)-1]
+			if el, ok := last.Type.(*ast.Ellipsis); ok && typeIs(info.TypeOf(el.Elt), pMigrate, "PlanOption") && len(last.Names) == 1 {
+				opt = info.ObjectOf(last.Names[0])
+			}
+			if opt == nil {
+				return
+			}
+			k := 0
+			ast.Inspect(fi.Decl.Body, func(m ast.Node) bool {
+				call, ok := m.(*ast.CallExpr)
+				if !ok {
+					return true
+				}
+				fn := calleeOf(info, call)
+				if fn == nil || fn.Name() != "PlanChanges" {
+					return true
+				}
+				k++
+				n++
+				c.funcs[fi.Name] = true
+				fwd := false
+				if call.Ellipsis.IsValid() && len(call.Args) > 0 {
+					// the spread argument is the parameter, or a slice built from it (append(opts, …) / append(x, opts...))
+					ast.Inspect(call.Args[len(call.Args)-1], func(q ast.Node) bool {
+						if id, ok := q.(*ast.Ident); ok && info.ObjectOf(id) == opt {
+							fwd = true
+						}
+						return true
+					})
+					if id, ok := ast.Unparen(call.Args[len(call.Args)-1]).(*ast.Ident); ok && !fwd {
+						obj := info.ObjectOf(id)
+						ast.Inspect(fi.Decl.Body, func(q ast.Node) bool {
+							if as, ok := q.(*ast.AssignStmt); ok {
+								for i, l := range as.Lhs {
+									if lid, ok := l.(*ast.Ident); ok && info.ObjectOf(lid) == obj && i < len(as.Rhs) {
+										ast.Inspect(as.Rhs[i], func(r ast.Node) bool {
+											if rid, ok := r.(*ast.Ident); ok && info.ObjectOf(rid) == opt {
+												fwd = true
+											}
+											return true
+										})
+									}
+								}
+							}
+							return true
+						})
+					}
+				}
+				c.Check(rule, fmt.Sprintf("%s|PlanChanges call %d forwards %s", fi.Name, k, opt.Name()), call.Pos(), fwd, "%s receives plan options (%s) but calls PlanChanges without them: the schema qualifier requested by the caller is ignored and CheckChangesScope never runs on this path", fi.Name, opt.Name())
+				return true
+			})
+		})
+	}
+	if n < 2 {
+		c.Unresolved(rule, "PlanChanges calls in functions receiving ...migrate.PlanOption (fewer than 2)")
+	}
+}
+
+// R18i: one Change per executed statement.
+const ruleTextChangePerStmt = "positional bookkeeping of the lint loader: in DevLoader.nextStmts every iteration that does not return an error appends exactly one sqlcheck.Change for its statement to File.Changes (no `continue` on the way): analyzers address neighbouring statements by index (the SQLite rebuild detector expects CREATE new_t, INSERT…SELECT, DROP t, RENAME at i…i+3), so a statement without schema effect that is left out shifts the window and an additive rebuild is reported as a dropped table"
+
+func checkChangePerStmt(c *Ctx, rule string) {
+	fi := c.Func(rule, modRoot+"/cmd/atlas/internal/migratelint", "DevLoader", "nextStmts")
+	if fi == nil {
+		return
+	}
+	info := fi.Info()
+	f := newFlow(info, fi.Decl.Body)
+	n := 0
+	ast.Inspect(fi.Decl.Body, func(m ast.Node) bool {
+		loop, ok := m.(*ast.RangeStmt)
+		if !ok {
+			return true
+		}
+		// the loop that executes statements
+		execs := false
+		for _, call := range callsIn(loop.Body, false) {
+			if fn := calleeOf(info, call); fn != nil && fn.Name() == "ExecContext" {
+				execs = true
+			}
+		}
+		if !execs {
+			return true
+		}
+		n++
+		c.funcs[fi.Name] = true
+		isAppend := func(nd ast.Node) bool {
+			as, ok := nd.(*ast.AssignStmt)
+			if !ok || len(as.Rhs) != 1 {
+				return false
+			}
+			call, ok := as.Rhs[0].(*ast.CallExpr)
+			if !ok || builtinName(info, call) != "append" || len(as.Lhs) != 1 {
+				return false
+			}
+			return isField(info, as.Lhs[0], pSqlcheck, "File", "Changes")
+		}
+		var starts []point
+		for _, b := range f.G.Blocks {
+			if b.Live && b.Kind == cfg.KindRangeBody && b.Stmt == ast.Stmt(loop) {
+				starts = append(starts, point{b, 0})
+			}
+		}
+		next := func(b *cfg.Block) bool { return b.Kind == cfg.KindRangeLoop && b.Stmt == ast.Stmt(loop) }
+		skipped := f.reachBlockEdges(starts, isAppend, next, nil)
+		c.Check(rule, fi.Name+"|every executed statement gets its Change", loop.Pos(), !skipped, "%s can move on to the next statement without appending a Change for the current one: the positions the analyzers rely on (neighbouring statements of the SQLite table rebuild) no longer line up", fi.Name)
+		return true
+	})
+	if n == 0 {
+		c.Unresolved(rule, "nextStmts: the loop that executes the statements")
+	}
+}
+
+// R18j: a prefix is removed with TrimPrefix, not with a cutset.
+const ruleTextTrimCutset = "prefix/suffix removal: no call of strings.TrimLeft / TrimRight / Trim in the module passes a constant cutset that contains a letter or a digit; a cutset is a set of characters, so TrimLeft(name, \"new_\") also eats the first letters of the real table name (`new_notes` → `otes`), the lint then fails to recognise the SQLite rebuild of such tables and reports an additive change as DROP TABLE"
+
+func checkTrimCutset(c *Ctx, rule string) {
+	n, bad := 0, 0
+	isLetterCut := func(info *types.Info, call *ast.CallExpr) (string, bool) {
+		fn := calleeOf(info, call)
+		if fn == nil || fn.Pkg() == nil || fn.Pkg().Path() != "strings" || len(call.Args) != 2 {
+			return "", false
+		}
+		switch fn.Name() {
+		case "TrimLeft", "TrimRight", "Trim":
+		default:
+			return "", false
+		}
+		s, ok := stringConst(info, call.Args[1])
+		if !ok {
+			return "", false
+		}
+		for _, r := range s {
+			if r == '_' || (r >= '0' && r <= '9') || (r >= 'a' && r <= 'z') || (r >= 'A' && r <= 'Z') {
+				return s, true
+			}
+		}
+		return s, false
+	}
+	c.AllFuncs(false, func(fi *FuncInfo) {
+		info := fi.Info()
+		ast.Inspect(fi.Decl.Body, func(m ast.Node) bool {
+			call, ok := m.(*ast.CallExpr)
+			if !ok {
+				return true
+			}
+			fn := calleeOf(info, call)
+			if fn == nil || fn.Pkg() == nil || fn.Pkg().Path() != "strings" || !strings.HasPrefix(fn.Name(), "Trim") || strings.HasSuffix(fn.Name(), "Func") || strings.HasSuffix(fn.Name(), "Space") || strings.HasSuffix(fn.Name(), "Prefix") || strings.HasSuffix(fn.Name(), "Suffix") {
+				return true
+			}
+			n++
+			if s, isBad := isLetterCut(info, call); isBad {
+				bad++
+				c.funcs[fi.Name] = true
+				c.Check(rule, fi.Name+"|"+types.ExprString(call.Fun)+" with cutset "+strconvQuote(s), call.Pos(), false, "%s calls %s with the cutset %q: every leading/trailing character that occurs in it is removed, not the prefix/suffix as a whole", fi.Name, types.ExprString(call.Fun), s)
+			}
+			return true
+		})
+	})
+	// positive control: the predicate must recognise the defective shape
+	ctl, _ := parser.ParseExpr(`strings.TrimLeft(name, "new_")`)
+	ctlOK := false
+	if call, ok := ctl.(*ast.CallExpr); ok {
+		if lit, ok := call.Args[1].(*ast.BasicLit); ok && strings.ContainsAny(lit.Value, "abcdefghijklmnopqrstuvwxyz") {
+			ctlOK = true
+		}
+	}
+	c.Check(rule, "module|cutset calls without letters or digits", token.NoPos, bad == 0 && ctlOK && n >= 5, "%d of %d strings.Trim/TrimLeft/TrimRight calls pass a cutset with letters or digits (positive control recognised: %v)", bad, n, ctlOK)
+}
+
+func strconvQuote(s string) string { return fmt.Sprintf("%q", s) }
+
+// R19k: Extend returns the value it extended.
+const ruleTextExtendReturns = "the env-level diff policy inherits the project-level skip list in the value it returns: in (*Diff).Extend the object that receives `SkipChanges` from the global block is the object returned on that path (the receiver, or the copy if a copy is made); storing into a copy and returning the receiver drops the inherited policy, and a change kind skipped at project level is planned and executed"
+
+func checkExtendReturns(c *Ctx, rule string) {
+	fi := c.Func(rule, modRoot+"/cmd/atlas/internal/cmdapi", "Diff", "Extend")
+	if fi == nil {
+		return
+	}
+	info := fi.Info()
+	var stored types.Object
+	var storePos token.Pos
+	ast.Inspect(fi.Decl.Body, func(m ast.Node) bool {
+		as, ok := m.(*ast.AssignStmt)
+		if !ok || len(as.Lhs) != 1 {
+			return true
+		}
+		se, ok := as.Lhs[0].(*ast.SelectorExpr)
+		if !ok || se.Sel.Name != "SkipChanges" {
+			return true
+		}
+		if r := rootIdent(se.X); r != nil {
+			stored, storePos = info.ObjectOf(r), as.Pos()
+		}
+		return true
+	})
+	if stored == nil {
+		c.Unresolved(rule, "Diff.Extend: the store of SkipChanges")
+		return
+	}
+	c.funcs[fi.Name] = true
+	// the last return of the function (the path through the store)
+	var last *ast.ReturnStmt
+	ast.Inspect(fi.Decl.Body, func(m ast.Node) bool {
+		if r, ok := m.(*ast.ReturnStmt); ok && r.Pos() > storePos {
+			last = r
+		}
+		return true
+	})
+	ok := false
+	if last != nil && len(last.Results) == 1 {
+		e := ast.Unparen(last.Results[0])
+		if u, isU := e.(*ast.UnaryExpr); isU && u.Op == token.AND {
+			e = ast.Unparen(u.X)
+		}
+		if id, isID := e.(*ast.Ident); isID && info.ObjectOf(id) == stored {
+			ok = true
+		}
+	}
+	c.Check(rule, "cmdapi.(Diff).Extend|returns the value that received the inherited SkipChanges", storePos, ok, "(*Diff).Extend stores the project-level SkipChanges into %s but returns a different value: the env's diff block does not inherit the skip policy, so `drop_table = true` at project level does not stop DROP TABLE for that env", stored.Name())
+}
+
+// R19l: the selector pattern admits the separator the selector list is split on.
+const ruleTextSelectorSeparator = "reader/consumer agreement of the type selector: schema.excludeType splits the captured selector list with strings.Split(…, sep); the capture group of the reType pattern accepts sep (its character class contains it), otherwise a multi-type selector `[type=index|fk]` is not recognised, is treated as part of the glob, and the pattern excludes nothing it names"
+
+func checkSelectorSeparator(c *Ctx, rule string) {
+	fi := c.Func(rule, pSchema, "", "excludeType")
+	if fi == nil {
+		return
+	}
+	info := fi.Info()
+	sep := ""
+	ast.Inspect(fi.Decl.Body, func(m ast.Node) bool {
+		call, ok := m.(*ast.CallExpr)
+		if ok && funcIs(calleeOf(info, call), "strings", "", "Split") && len(call.Args) == 2 {
+			if s, ok := stringConst(info, call.Args[1]); ok {
+				sep = s
+			}
+		}
+		return true
+	})
+	p := c.Pkg(pSchema)
+	pattern := ""
+	for _, f := range p.Syntax {
+		ast.Inspect(f, func(m ast.Node) bool {
+			vs, ok := m.(*ast.ValueSpec)
+			if !ok {
+				return true
+			}
+			for i, nm := range vs.Names {
+				if nm.Name == "reType" && i < len(vs.Values) {
+					if call, ok := vs.Values[i].(*ast.CallExpr); ok && len(call.Args) == 1 {
+						if s, ok := stringConst(p.TypesInfo, call.Args[0]); ok {
+							pattern = s
+						}
+					}
+				}
+			}
+			return true
+		})
+	}
+	if sep == "" || pattern == "" {
+		c.Unresolved(rule, "excludeType: separator of strings.Split / pattern of reType")
+		return
+	}
+	re, err := syntax.Parse(pattern, syntax.Perl)
+	if err != nil {
+		c.Unresolved(rule, "reType does not parse: "+err.Error())
+		return
+	}
+	c.funcs[fi.Name] = true
+	// first capture group: does some character class / literal inside accept every rune of sep?
+	accepts := false
+	var walk func(r *syntax.Regexp, inCap bool)
+	walk = func(r *syntax.Regexp, inCap bool) {
+		if r.Op == syntax.OpCapture {
+			inCap = true
+		}
+		if inCap {
+			switch r.Op {
+			case syntax.OpCharClass:
+				all := true
+				for _, sr := range sep {
+					in := false
+					for i := 0; i+1 < len(r.Rune); i += 2 {
+						if r.Rune[i] <= sr && sr <= r.Rune[i+1] {
+							in = true
+						}
+					}
+					if !in {
+						all = false
+					}
+				}
+				if all {
+					accepts = true
+				}
+			case syntax.OpLiteral:
+				if strings.Contains(string(r.Rune), sep) {
+					accepts = true
+				}
+			case syntax.OpAnyChar, syntax.OpAnyCharNotNL:
+				accepts = true
+			}
+		}
+		for _, s := range r.Sub {
+			walk(s, inCap)
+		}
+	}
+	walk(re, false)
+	c.Check(rule, "schema.excludeType|reType capture accepts the separator "+strconvQuote(sep), fi.Decl.Pos(), accepts, "schema.excludeType splits the selector list on %q, but the capture group of reType (%s) cannot match that character: a selector naming several types is not recognised and the whole `[type=…]` suffix is matched as glob text", sep, pattern)
 }
